@@ -403,3 +403,99 @@ Example ex_sign_rule :
   /\ LexerPrev.lex_obs [97; 32; 45; 49; 32]%Z = ([(12, [97]); (14, [45; 49])], true)%Z
   /\ LexerPrev.lex_obs [97; 42; 45; 49; 32]%Z = ([(12, [97]); (12, [42]); (14, [45; 49])], true)%Z.
 Proof. vm_compute. repeat split; reflexivity. Qed.
+
+(* ===== round 7: the exponent rule; spacing of / , /= and := ===== *)
+Require ZV.Proofs.LexerExpSlash ZV.Proofs.LexerBufLast ZV.Proofs.LexerExponent ZV.Proofs.LexerSlashSpacing.
+
+(* after ANY text, an atom pending in normal mode ends in the last rune of the text: the rune the
+   exponent rule looks back at (twoback) is the last rune of the buffered atom *)
+Theorem buffer_ends_in_last_rune : forall (t : list Z) (s : Lexer.lstate),
+  Lexer.lex_all Lexer.init_lstate t = Lexer.LOk s -> Lexer.l_state s = Lexer.LNormal ->
+  Lexer.l_buffer s <> [] -> last (Lexer.l_buffer s) 0%Z = last t 0%Z.
+Proof. exact LexerBufLast.buffer_ends_in_last_rune. Qed.
+Print Assumptions buffer_ends_in_last_rune.
+
+(* the scientific-notation test of LexNextRune on an atom m ++ [e] is "m is a mantissa" per the generated
+   DecimalRegex / FloatRegex (mantissa m = re_match re_DecimalRegex m || re_match re_FloatRegex m) *)
+Theorem sci_prefix_is_mantissa : forall (m : list Z) (e : Z), (e = 101 \/ e = 69)%Z ->
+  Lexer.sci_prefix_ok (m ++ [e])%list = LexerExpSlash.mantissa m.
+Proof. exact LexerExpSlash.sci_prefix_mantissa. Qed.
+Print Assumptions sci_prefix_is_mantissa.
+
+(* THE exponent rule, for every text t that leaves the lexer in normal mode with a pending atom m ++ [e],
+   e in {e, E}, and a sign c in {+, -}: the last rune of t is that e, and
+   - if m is a mantissa, c is appended to the atom (it is part of the number token), nothing is emitted;
+   - otherwise (identifier "there", hex "0x1e", ...) the atom is decoded and queued and the lexer is in
+     the operator mode with c pending and e recorded as the rune in front of it - the state in which the
+     sign rule decides; an atom that does not decode is the lexer's error *)
+Theorem exponent_rule : forall (t : list Z) (s : Lexer.lstate) (m : list Z) (e c : Z),
+  Lexer.lex_all Lexer.init_lstate t = Lexer.LOk s -> Lexer.l_state s = Lexer.LNormal ->
+  Lexer.l_buffer s = (m ++ [e])%list -> (e = 101 \/ e = 69)%Z -> (c = 43 \/ c = 45)%Z ->
+  last t 0%Z = e /\
+  if LexerExpSlash.mantissa m
+  then exists s', Lexer.lex_all s [c] = Lexer.LOk s' /\ Lexer.l_state s' = Lexer.LNormal /\
+                  Lexer.l_buffer s' = (m ++ [e; c])%list /\ Lexer.l_tokens s' = Lexer.l_tokens s
+  else match Lexer.dump_buffer s with
+       | Some s1 => exists s', Lexer.lex_all s [c] = Lexer.LOk s' /\ Lexer.l_state s' = Lexer.LBuiltinOperator /\
+                               Lexer.l_buffer s' = [] /\ Lexer.l_tokens s' = Lexer.l_tokens s1 /\
+                               Lexer.l_prevrune s' = c /\ Lexer.l_prebuiltin s' = e
+       | None => exists s', Lexer.lex_all s [c] = Lexer.LErr s' /\ Lexer.l_tokens s' = Lexer.l_tokens s
+       end.
+Proof. exact LexerExponent.exponent_rule_lemma. Qed.
+Print Assumptions exponent_rule.
+
+(* joined with sign_rule: after an atom ending in e / E that is not mantissa-e, a '-' glued to a digit is
+   the operator minus and the digit starts the next atom *)
+Theorem exponent_rule_else_operator : forall (t : list Z) (s s1 : Lexer.lstate) (m : list Z) (e d : Z),
+  Lexer.lex_all Lexer.init_lstate t = Lexer.LOk s -> Lexer.l_state s = Lexer.LNormal ->
+  Lexer.l_buffer s = (m ++ [e])%list -> (e = 101 \/ e = 69)%Z -> LexerExpSlash.mantissa m = false ->
+  Lexer.dump_buffer s = Some s1 -> (48 <= d <= 57)%Z ->
+  exists s', Lexer.lex_all s [45; d]%Z = Lexer.LOk s' /\ Lexer.l_state s' = Lexer.LNormal /\
+             Lexer.l_buffer s' = [d] /\
+             Lexer.l_tokens s' = (Lexer.l_tokens s1 ++ [Lexer.mkTok Lexer.TSymbol [45%Z]])%list.
+Proof. exact LexerExponent.exponent_rule_else_operator. Qed.
+Print Assumptions exponent_rule_else_operator.
+
+(* non-vacuity: "1e-5 " and "2.5E+3 " are one float each; "there-5 " and "0x1e-5 " are atom, minus, 5;
+   the mantissa test on the four atoms *)
+Example ex_exponent_rule :
+  LexerPrev.lex_obs [49; 101; 45; 53; 32]%Z = ([(18, [49; 101; 45; 53])], true)%Z
+  /\ LexerPrev.lex_obs [50; 46; 53; 69; 43; 51; 32]%Z = ([(18, [50; 46; 53; 69; 43; 51])], true)%Z
+  /\ LexerPrev.lex_obs [116; 104; 101; 114; 101; 45; 53; 32]%Z
+     = ([(12, [116; 104; 101; 114; 101]); (12, [45]); (14, [53])], true)%Z
+  /\ LexerPrev.lex_obs [48; 120; 49; 101; 45; 53; 32]%Z = ([(15, [49; 101]); (12, [45]); (14, [53])], true)%Z
+  /\ LexerExpSlash.mantissa [49]%Z = true /\ LexerExpSlash.mantissa [50; 46; 53]%Z = true
+  /\ LexerExpSlash.mantissa [116; 104; 101; 114]%Z = false /\ LexerExpSlash.mantissa [48; 120; 49]%Z = false.
+Proof. vm_compute. repeat split; reflexivity. Qed.
+
+(* blanks around '/' (not followed by '/' or '*', which open comments, nor by a rune it merges with:
+   BuiltinOpRegex accepts only "/="), around '/=' and around ':=' do not change the tokens, after any
+   context a that leaves the lexer in normal mode *)
+Theorem op_spacing_slash : forall (a b : list Z) (s : Lexer.lstate),
+  Lexer.lex_all Lexer.init_lstate a = Lexer.LOk s -> Lexer.l_state s = Lexer.LNormal ->
+  hd 10%Z (b ++ [10%Z])%list <> 47%Z -> hd 10%Z (b ++ [10%Z])%list <> 42%Z ->
+  Regex.re_match LexTables.re_BuiltinOpRegex [47%Z; hd 10%Z (b ++ [10%Z])%list] = false ->
+  Lexer.lex_text (a ++ [47%Z] ++ b ++ [10%Z])%list = Lexer.lex_text (a ++ [32; 47; 32]%Z ++ b ++ [10%Z])%list.
+Proof. exact LexerSlashSpacing.op_spacing_slash. Qed.
+Print Assumptions op_spacing_slash.
+
+Theorem op_spacing_slash_eq : forall (a b : list Z) (s : Lexer.lstate),
+  Lexer.lex_all Lexer.init_lstate a = Lexer.LOk s -> Lexer.l_state s = Lexer.LNormal ->
+  Lexer.lex_text (a ++ [47; 61]%Z ++ b ++ [10%Z])%list = Lexer.lex_text (a ++ [32; 47; 61; 32]%Z ++ b ++ [10%Z])%list.
+Proof. exact LexerSlashSpacing.op_spacing_slash_eq. Qed.
+Print Assumptions op_spacing_slash_eq.
+
+Theorem op_spacing_fresh_assign : forall (a b : list Z) (s : Lexer.lstate),
+  Lexer.lex_all Lexer.init_lstate a = Lexer.LOk s -> Lexer.l_state s = Lexer.LNormal ->
+  Lexer.lex_text (a ++ [58; 61]%Z ++ b ++ [10%Z])%list = Lexer.lex_text (a ++ [32; 58; 61; 32]%Z ++ b ++ [10%Z])%list.
+Proof. exact LexerSlashSpacing.op_spacing_fresh_assign. Qed.
+Print Assumptions op_spacing_fresh_assign.
+
+(* non-vacuity: a/b, a/=b, a:=b spaced and unspaced; a//b is a comment, so the side condition is needed *)
+Example ex_op_spacing_slash :
+  Lexer.lex_text [97; 47; 98; 10]%Z = Lexer.lex_text [97; 32; 47; 32; 98; 10]%Z
+  /\ Lexer.lex_text [97; 47; 61; 98; 10]%Z = Lexer.lex_text [97; 32; 47; 61; 32; 98; 10]%Z
+  /\ Lexer.lex_text [97; 58; 61; 98; 10]%Z = Lexer.lex_text [97; 32; 58; 61; 32; 98; 10]%Z
+  /\ map Lexer.t_kind (fst (Lexer.lex_text [97; 58; 61; 98; 10]%Z)) = [Lexer.TSymbol; Lexer.TFreshAssign; Lexer.TSymbol]
+  /\ Lexer.lex_text [97; 47; 47; 98; 10]%Z <> Lexer.lex_text [97; 32; 47; 32; 47; 98; 10]%Z.
+Proof. vm_compute. repeat split; try reflexivity. discriminate. Qed.
